@@ -29,6 +29,12 @@ TRUSTED = [
     "translator/slope_c17.py (Python ast -> Gallina for _slope, fail-closed); validated on every run "
     "because the regenerated gen_slope is proved equal to the model (Bridge.v) and compared with the "
     "implementation on random series",
+    "translator/combine_c17.py (fail-closed ast extractor for the predict_proba / predict / score "
+    "functions of the runnable classifiers, _transform and _get_intervals): the numpy reading it "
+    "encodes - np.sum(list of matrices, axis=0) = entry-wise sum over members, a vector of ones times a "
+    "scalar = that scalar broadcast, np.searchsorted of a sorted sub-list = positions of its labels, "
+    "sums[i, class_dictionary[label]] += w = weight_for - is trusted; the regenerated definitions are "
+    "proved equal to the model (BridgeSites.v) and the model is compared with the running code",
     "props/c17.py driver_init: sklearn 1.7 ForestClassifier/ForestRegressor.__init__ wrapped to accept "
     "the removed `base_estimator=` keyword (mapped to `estimator=`, attribute `base_estimator` set) so "
     "that the interval forests can be constructed; nothing in /repo is patched",
@@ -67,6 +73,8 @@ NOT_RUNNABLE = [
     "shapelet_based (ShapeletTransformClassifier, ROCKETClassifier, MrSEQL): package __init__ imports "
     "the uncompiled mrseql extension",
     "ComposableTimeSeriesForestClassifier: abstract under sklearn 1.7 (_set_oob_score_and_attributes)",
+    "CanonicalIntervalForest, DrCIF: need the soft dependency catch22 (not installed); HIVECOTEV1: imports "
+    "the shapelet package",
 ]
 
 
